@@ -138,11 +138,16 @@ def f1(prog, ctx):
     for cls in ("ExonCounter", "IntronCounter"):
         f = prog.func(LRC, cls + ".add_read_info")
         calls = [c for c in walk_no_nested(f) if isinstance(c, ast.Call) and (call_name(c) or "").endswith("add_read_info_from_profile")]
-        if len(calls) != 1 or len(calls[0].args) < 2:
+        if len(calls) != 1:
             raise AnalysisError("%s.add_read_info: expected one add_read_info_from_profile(profile, table, ...)" % cls)
         c = calls[0]
-        same(ctx, "F1", c, f._qualname, "%s(%s, %s)" % (call_name(c), src(c.args[0]), src(c.args[1])),
-             [stem(cls), stem(src(c.args[0])), stem(src(c.args[1]))], "counter class, profile and feature table")
+        from ..engine import argswap
+        bound = argswap.bind_args(c, prog.func(LRC, "ProfileFeatureCounter.add_read_info_from_profile"), bound_method=True)
+        pa, ta = _profile_table_params(prog)
+        if pa not in bound or ta not in bound:
+            raise AnalysisError("%s.add_read_info: profile / table argument of add_read_info_from_profile not found" % cls)
+        same(ctx, "F1", c, f._qualname, "%s(%s, %s)" % (call_name(c), src(bound[pa]), src(bound[ta])),
+             [stem(cls), stem(src(bound[pa])), stem(src(bound[ta]))], "counter class, profile and feature table")
         cnt += 1
         n += 1
     # 7. which counter writes which file
@@ -154,16 +159,33 @@ def f1(prog, ctx):
     return n
 
 
+def _profile_table_params(prog):
+    """(profile parameter, table parameter) of add_read_info_from_profile, by what the body does with them:
+    the profile is the one whose elements are compared with 1 / -1, the table the one whose elements give `.id`."""
+    f = prog.func_inlined("src/long_read_counter.py", "ProfileFeatureCounter.add_read_info_from_profile")
+    params = [a.arg for a in f.args.args][1:]
+    prof = table = None
+    for n in walk_no_nested(f):
+        if isinstance(n, ast.Compare) and isinstance(n.left, ast.Subscript) and isinstance(n.left.value, ast.Name) and n.left.value.id in params \
+                and src(n.comparators[0]) in ("1", "-1"):
+            prof = n.left.value.id
+        if isinstance(n, ast.Attribute) and n.attr == "id" and isinstance(n.value, ast.Subscript) and isinstance(n.value.value, ast.Name) \
+                and n.value.value.id in params:
+            table = n.value.value.id
+    if prof is None or table is None:
+        raise AnalysisError("add_read_info_from_profile: profile / table parameters not identified")
+    return prof, table
+
+
 def f2(prog, ctx):
     LRC = "src/long_read_counter.py"
-    f = prog.func(LRC, "ProfileFeatureCounter.add_read_info_from_profile")
+    f = prog.func_inlined(LRC, "ProfileFeatureCounter.add_read_info_from_profile")
     loops = [l for l in walk_no_nested(f) if isinstance(l, ast.For)]
     if len(loops) != 1:
         raise AnalysisError("add_read_info_from_profile: expected one loop over the profile")
     loop = loops[0]
     idx = src(loop.target)
-    prof = f.args.args[1].arg
-    table = f.args.args[2].arg
+    prof, table = _profile_table_params(prog)
     incs = [c for c in walk_no_nested(f) if isinstance(c, ast.Call) and isinstance(c.func, ast.Attribute) and c.func.attr == "inc"]
     mapping = {}
     for c in incs:
@@ -193,10 +215,12 @@ def f2(prog, ctx):
             ctx.fail("F2", c, f._qualname, src(c), "a count is added outside the per-feature loop")
         mapping.setdefault(counter, []).append((tuple(vals), c))
         # the feature id comes from the same index of the table
-        fid_defs = [s for s in st._parent.body if isinstance(s, ast.Assign) and src(s.targets[0]) == "feature_id"] \
-            if hasattr(st._parent, "body") else []
-        key = rtxt
-        if "feature_id" in key and (not fid_defs or src(fid_defs[0].value) != "%s[%s].id" % (table, idx)):
+        kexpr = recv.slice if isinstance(recv, ast.Subscript) else None
+        if isinstance(kexpr, ast.Name):
+            blk_ = st._parent.body if st in getattr(st._parent, "body", []) else getattr(st._parent, "orelse", [])
+            kd = [s for s in blk_ if isinstance(s, ast.Assign) and src(s.targets[0]) == kexpr.id and s.lineno <= st.lineno]
+            kexpr = kd[-1].value if kd else kexpr
+        if kexpr is None or src(kexpr) != "%s[%s].id" % (table, idx):
             ctx.fail("F2", c, f._qualname, src(c), "feature id is not %s[%s].id (same index as the profile value)" % (table, idx))
     want = {"inclusion": (1,), "exclusion": (-1,)}
     for counter, w in want.items():
@@ -251,8 +275,9 @@ def f3(prog, ctx):
         else:
             ctx.ok("F3", "%s:%d" % (LRC, wr[0].lineno), "row written iff include or exclude count is positive")
     # every feature seen in either counter is registered in feature_name_dict
-    a = prog.func(LRC, "ProfileFeatureCounter.add_read_info_from_profile")
-    regs = [s_ for s_ in walk_no_nested(a) if isinstance(s_, ast.Assign) and "self.feature_name_dict[feature_id]" in src(s_.targets[0])]
+    a = prog.func_inlined(LRC, "ProfileFeatureCounter.add_read_info_from_profile")
+    regs = [s_ for s_ in walk_no_nested(a) if isinstance(s_, ast.Assign) and isinstance(s_.targets[0], ast.Subscript)
+            and src(s_.targets[0].value) == "self.feature_name_dict"]
     if len(regs) != 2:
         ctx.fail("F3", a, a._qualname, "feature_name_dict", "features are not registered for both inclusion and exclusion")
     else:
